@@ -10,26 +10,26 @@ from .core import ToolError, log
 # math  : function-level trace validation (real pure functions, production scale)
 # world : system-level trace validation (real contracts in cw-multi-test)
 PROPS = {
-    'C01': dict(mc=[('MC_Math', ['swap'])], math=['swap'], world=['random', 'withdraw']),
-    'C02': dict(mc=[], world=['matrix', 'random']),
-    'C03': dict(mc=[], world=['random', 'withdraw', 'matrix']),
-    'C04': dict(mc=[('MC_Math', ['withdraw'])], world=['random', 'withdraw']),
-    'C05': dict(mc=[('MC_Math', ['share', 'first'])], math=['share'], world=['random', 'matrix']),
-    'C06': dict(mc=[('MC_Math', ['swap'])], math=['swap'], world=['random']),
-    'C07': dict(mc=[], world=['random', 'matrix']),
+    'C01': dict(mc=[('MC_Pool', None), ('MC_Math', ['swap'])], math=['swap'], world=['random', 'withdraw']),
+    'C02': dict(mc=[('MC_Pool', None)], world=['matrix', 'random']),
+    'C03': dict(mc=[('MC_Pool', None)], world=['random', 'withdraw', 'matrix']),
+    'C04': dict(mc=[('MC_Pool', None), ('MC_Math', ['withdraw'])], world=['random', 'withdraw']),
+    'C05': dict(mc=[('MC_Pool', None), ('MC_Math', ['share', 'first'])], math=['share'], world=['random', 'matrix']),
+    'C06': dict(mc=[('MC_Pool', None), ('MC_Math', ['swap'])], math=['swap'], world=['random']),
+    'C07': dict(mc=[('MC_Pool', None)], world=['random', 'matrix']),
     'C08': dict(mc=[], math=['arith'], level='exploration'),
-    'C09': dict(mc=[], world=['matrix', 'random']),
-    'C10': dict(mc=[('MC_Math', ['belief', 'spread'])], math=['maxspread'], world=['random']),
-    'C11': dict(mc=[], world=['random']),
-    'C12': dict(mc=[('MC_Math', ['reverse'])], math=['reverse'], world=['random']),
-    'C13': dict(mc=[], world=['random']),
-    'C14': dict(mc=[], world=['matrix', 'random']),
-    'C15': dict(mc=[('MC_Math', ['slip'])], math=['slip'], world=['random']),
+    'C09': dict(mc=[('MC_Pool', None)], world=['matrix', 'random']),
+    'C10': dict(mc=[('MC_Pool', None), ('MC_Math', ['belief', 'spread'])], math=['maxspread'], world=['random']),
+    'C11': dict(mc=[('MC_Router', None)], world=['random']),
+    'C12': dict(mc=[('MC_Pool', None), ('MC_Math', ['reverse'])], math=['reverse'], world=['random']),
+    'C13': dict(mc=[('MC_Router', None)], world=['random']),
+    'C14': dict(mc=[('MC_Pool', None)], world=['matrix', 'random']),
+    'C15': dict(mc=[('MC_Pool', None), ('MC_Math', ['slip'])], math=['slip'], world=['random']),
     'C16': dict(mc=[], world=['registry', 'matrix']),
     'C17': dict(mc=[], world=['registry']),
     'C18': dict(mc=[], math=['text'], level='exploration'),
     'C19': dict(mc=[], world=['registry']),
-    'C20': dict(mc=[], world=['withdraw', 'random']),
+    'C20': dict(mc=[('MC_Pool', None)], world=['withdraw', 'random']),
 }
 
 # world driver sizes: (behaviours, steps) per tier
@@ -62,27 +62,56 @@ def mc_math_cfg(fams, tier, dfrac=10):
     return c
 
 
+def mc_pool_cfg(kind, tier):
+    c = core.int_consts()
+    c += '  KIND = "%s"\n' % kind
+    c += '  AMTS = %s\n' % ('{0, 1, 2, 3, 5}' if tier == 'thorough' else '{0, 1, 2, 3}')
+    c += '  MAXSTEPS = %d\n' % (4 if tier == 'thorough' else 3)
+    c += '  COMMISSION = 1\n  FULL = TRUE\n  KeyBytes <- MCKeyBytes\n  AddrOfIndex <- MCAddrOfIndex\n'
+    c += 'SPECIFICATION Spec\nVIEW View\nPROPERTY StepProp\nINVARIANT C20_State\nCHECK_DEADLOCK FALSE\n'
+    return c
+
+
+def mc_router_cfg(tier):
+    c = core.int_consts()
+    c += '  AMTS = {1, 2, 3}\n  MAXSTEPS = %d\n  MAXHOPS = %d\n  COMMISSION = 1\n  FOURPAIRS = %s\n' % (
+        (2, 4, 'TRUE') if tier == 'thorough' else (2, 3, 'FALSE'))
+    c += '  KeyBytes <- MCKeyBytes\n  AddrOfIndex <- MCAddrOfIndex\n'
+    c += 'SPECIFICATION Spec\nVIEW View\nPROPERTY StepProp\nCHECK_DEADLOCK FALSE\n'
+    return c
+
+
 def run_mc(pid, tier, workdir):
     """Run the design-level models of a property.  A failure here is a defect of the model (or of the
     property's reading), never of the code: it is reported as a tool error, not as a violation."""
     total = {'states': 0, 'transitions': 0, 'models': []}
     for module, fams in PROPS[pid].get('mc', []):
-        t0 = time.time()
         if module == 'MC_Math':
-            cfg = mc_math_cfg(fams, tier)
+            runs = [(fams, mc_math_cfg(fams, tier))]
+        elif module == 'MC_Pool':
+            kinds = ['NN', 'NC', 'CC']
+            if tier == 'quick':
+                # one pair kind per property in the quick tier (all three kinds are covered across the properties;
+                # the thorough tier runs all of them, one step deeper)
+                kinds = [kinds[int(pid[1:]) % 3]]
+            runs = [('kind=%s' % k, mc_pool_cfg(k, tier)) for k in kinds]
+        elif module == 'MC_Router':
+            runs = [('3 pairs, routes of 1..3 hops', mc_router_cfg(tier))]
         else:
             raise ToolError('unknown model ' + module)
-        out = core.run_tlc(module, cfg, os.path.join(workdir, 'mc_' + module), workers=min(core.NCPU, 16),
-                           timeout=3000, xss='64m', heap='8g')
-        err = core.tlc_failed(out)
-        st = core.tlc_stats(out)
-        if err or not st:
-            raise ToolError('model %s (%s) failed:\n%s' % (module, fams, err or out[-2000:]))
-        total['states'] += st['distinct']
-        total['transitions'] += st['generated']
-        total['models'].append({'module': module, 'families': fams, 'distinct_states': st['distinct'],
-                                'states_generated': st['generated'], 'wall_s': round(time.time() - t0, 1)})
-        log('[mc] %s %s: %d distinct states, %.1fs' % (module, fams, st['distinct'], time.time() - t0))
+        for what, cfg in runs:
+            t0 = time.time()
+            out = core.run_tlc(module, cfg, os.path.join(workdir, 'mc_' + module), workers=min(core.NCPU, 16),
+                               timeout=6000, xss='64m', heap='8g')
+            err = core.tlc_failed(out)
+            st = core.tlc_stats(out)
+            if err or not st:
+                raise ToolError('model %s (%s) failed:\n%s' % (module, what, err or out[-2000:]))
+            total['states'] += st['distinct']
+            total['transitions'] += st['generated']
+            total['models'].append({'module': module, 'scope': what, 'distinct_states': st['distinct'],
+                                    'transitions': st['generated'], 'wall_s': round(time.time() - t0, 1)})
+            log('[mc] %s %s: %d distinct states, %d transitions, %.1fs' % (module, what, st['distinct'], st['generated'], time.time() - t0))
     return total
 
 
